@@ -37,6 +37,14 @@ class Untranslatable(Exception):
     pass
 
 
+def is_cplx(e):
+    """Expr.is_complex, total (kinds for which the repo does not implement it are real/boolean valued)."""
+    try:
+        return bool(e.is_complex)
+    except NotImplementedError:
+        return False
+
+
 def bits_of(x, fmt):
     return int(numpy.array([x], dtype=NPF[fmt]).view(NPU[fmt])[0])
 
@@ -66,7 +74,7 @@ def full_expansion_modifier(algorithms, native_real=None):
     def modifier(expr):
         if expr.kind in {"symbol", "constant", "apply"}:
             return expr
-        has_complex = any(isinstance(o, fa.Expr) and o.is_complex for o in expr.operands)
+        has_complex = any(isinstance(o, fa.Expr) and is_cplx(o) for o in expr.operands)
         if expr.kind in {"real", "imag", "complex", "list", "item", "select", "positive"}:
             if expr.kind == "select" and has_complex:
                 pass  # select on complex values must be expanded by the algorithm itself
@@ -177,7 +185,7 @@ class Builder:
         elif kind in UN:
             spec = (UN[kind], (self.digest(expr.operands[0]),), 0)
         elif kind in LIBM:
-            if any(o.is_complex for o in expr.operands):
+            if any(is_cplx(o) for o in expr.operands):
                 raise Untranslatable(f"complex {kind} not expanded")
             spec = ("libm:" + kind, tuple(self.digest(o) for o in expr.operands), 0)
         else:
@@ -231,7 +239,7 @@ def flatten_outputs(body):
         return out
     if body.kind == "complex":
         return [body.operands[0], body.operands[1]]
-    if body.is_complex:
+    if is_cplx(body):
         raise Untranslatable(f"complex result of kind {body.kind} not expanded")
     return [body]
 
@@ -244,7 +252,7 @@ def prog_of_apply(graph, fmt):
         if a.kind == "list":
             for it in a.operands:
                 names.append(it.operands[0])
-        elif a.is_complex:
+        elif is_cplx(a):
             names += [f"{a.operands[0]}.real", f"{a.operands[0]}.imag"]
         else:
             names.append(a.operands[0])
